@@ -52,7 +52,7 @@ ONE = {(1, 1)}
 # battery bounds for the C17 scopes: consistent also when two of them sit behind one small inverter
 QB = {(-6, -2, 0, 2), (-2, 0, 2, 6), (-6, 0, 3, 6), (-4, -3, 0, 4), (-4, 0, 0, 4)}
 SMALL2 = dict(Caps2={1}, Socs2={2}, BatBnds2={(-2, 0, 0, 2), (-4, -2, 2, 4)}, InvBnds2={(-2, 0, 0, 2), (-4, -1, 1, 4), (-2, -2, 2, 2)})
-BASE = dict(UnitW=UNITW, SocLo=1, SocHi=3, SCd=SCD, Tol=TOL, **SMALL2)
+BASE = dict(UnitW=UNITW, SocLo=1, SocHi=3, Lims2={(1, 3)}, SCd=SCD, Tol=TOL, **SMALL2)
 
 
 def _scope(**kw) -> dict:
@@ -82,12 +82,18 @@ SCOPES = {
             ("multi2", _scope(Mode="dist", NGroups={2}, Caps={1}, Socs={2}, BatBnds={(-6, -2, 0, 4), (-4, 0, 3, 6)},
                               InvBnds={(-4, -2, 0, 2), (-2, 0, 2, 4), (-4, -1, 1, 4)}, Shapes1={(1, 2)}, ShapesR={(1, 2)},
                               Mags={1, 3, 4, 5, 7, 9, 11}, Exps={1})),
+            # two batteries of different capacity and different SoC limits behind shared inverter(s), each
+            # battery at its own lower or upper limit (capacity-weighted aggregation of SoC and limits)
+            ("hetero", _scope(Mode="dist", NGroups={1, 2}, Caps={1}, Socs={1, 3}, Caps2={2}, Socs2={2, 4}, Lims2={(2, 4)},
+                              BatBnds={(-6, -2, 0, 4), (-4, 0, 2, 6)}, BatBnds2={(-2, 0, 0, 2), (-4, -2, 2, 4)},
+                              InvBnds={(-4, -2, 0, 2), (-6, 0, 1, 6)}, Shapes1={(2, 1), (2, 2)}, ShapesR=ONE,
+                              Mags={1, 3, 5, 8}, Exps={1})),
             # 3-4 groups on a finer SoC grid with exclusion bounds: a deficit larger than any single
             # surplus is covered from several donors (partial-cover branch of the deficit loop)
             ("cover3", _scope(Mode="dist", NGroups={3}, Caps={1}, Socs={1, 8}, SocLo=0, SocHi=9,
                               BatBnds={(-6, -2, 2, 6), (-6, 0, 0, 6), (-6, -4, 4, 6)}, InvBnds={(-6, 0, 0, 6), (-6, -1, 1, 6)},
                               Shapes1=ONE, ShapesR=ONE, Mags={1, 3, 5, 7, 9}, Exps={1})),
-            ("cover4", _scope(Mode="dist", NGroups={4}, Caps={1}, Socs={1, 3, 8}, SocLo=0, SocHi=9,
+            ("cover4", _scope(Mode="dist", NGroups={4}, Caps={1}, Socs={1, 8, 9}, SocLo=0, SocHi=9,  # 9 = at the upper limit
                               BatBnds={(-6, -2, 2, 6), (-6, 0, 0, 6)}, InvBnds={(-6, 0, 0, 6)},
                               Shapes1=ONE, ShapesR=ONE, Mags={1, 3, 5, 7, 9}, Exps={1})),
         ],
@@ -137,8 +143,12 @@ SCOPES = {
             ("cover3", _scope(Mode="dist", NGroups={3}, Caps={1}, Socs={1, 3, 8}, SocLo=0, SocHi=9,
                               BatBnds={(-6, -2, 2, 6), (-6, 0, 0, 6), (-6, -4, 4, 6)}, InvBnds={(-6, 0, 0, 6), (-6, -1, 1, 6)},
                               Shapes1=ONE, ShapesR=ONE, Mags={1, 3, 5, 7, 9, 11}, Exps={1})),
-            ("cover4", _scope(Mode="dist", NGroups={4}, Caps={1}, Socs={1, 3, 8}, SocLo=0, SocHi=9,
-                              BatBnds={(-6, -2, 2, 6), (-6, 0, 0, 6), (-6, -4, 4, 6)}, InvBnds={(-6, 0, 0, 6)},
+            ("hetero", _scope(Mode="dist", NGroups={1, 2}, Caps={1, 3}, Socs={1, 2, 3}, Caps2={2}, Socs2={2, 3, 4}, Lims2={(2, 4), (1, 3)},
+                              BatBnds={(-6, -2, 0, 4), (-4, 0, 2, 6)}, BatBnds2={(-2, 0, 0, 2), (-4, -2, 2, 4)},
+                              InvBnds={(-4, -2, 0, 2), (-6, 0, 1, 6)}, Shapes1={(2, 1), (2, 2)}, ShapesR=ONE,
+                              Mags={1, 3, 5, 8, 11}, Exps={1})),
+            ("cover4", _scope(Mode="dist", NGroups={4}, Caps={1}, Socs={0, 1, 8, 9}, SocLo=0, SocHi=9,
+                              BatBnds={(-6, -2, 2, 6), (-6, 0, 0, 6)}, InvBnds={(-6, 0, 0, 6)},
                               Shapes1=ONE, ShapesR=ONE, Mags={1, 3, 5, 7, 9, 11, 13}, Exps={1})),  # exponent 2 only on the coarse SoC grid (32-bit rationals)
         ],
         "reject": [
@@ -532,8 +542,9 @@ def _exercised(workdir: Path, shards: list) -> dict:
     return tot
 
 
-def _mc(rep: Report, prop: str, name: str, consts: dict, work: Path) -> None:
-    """MC+GEN for one scope: model-check the invariants; the emitted cases stay in the stage's file."""
+def _mc_run(prop: str, name: str, consts: dict, work: Path, workers: int):
+    """MC+GEN for one scope (no side effects on the report): model-check the invariants; the emitted
+    cases stay in the stage's file."""
     d = work / name
     d.mkdir(parents=True, exist_ok=True)
     mode = consts["Mode"]
@@ -547,21 +558,35 @@ def _mc(rep: Report, prop: str, name: str, consts: dict, work: Path) -> None:
         inv += CLAUSE_INV["C01"] + CLAUSE_INV["C02"] + CLAUSE_INV["C17"]
     else:  # C01 and C02 share the distribution stages; the domain sanity invariant of C17 comes along
         inv += CLAUSE_INV["C01"] + CLAUSE_INV["C02"] + ["AdmittedIsAcceptedInv"]
-    res = run_tlc("BatteryPower", d, constants=consts, invariants=inv, env={"OUT_FILE": str(cases_file)}, timeout=12000, heap="4g")
-    rep.add_mc(name, res, _jsonable(consts), inv, mode="exhaustive")
-    if not res.ok:
-        mine = [v for v in res.violated if v in CLAUSE_INV[prop] or v in DESIGN_INV or v in ("initial", "ASSUME", "AdmittedIsAcceptedInv", "NonAdmittedInv")]
-        if mine:
-            rep.fail(f"{prop}.MC.{'/'.join(res.violated)}", dict(stage=name, constants=_jsonable(consts)), res.counterexample[:3000])
-            return
-        raise MachineryError(f"model checking stopped on an invariant of another property: {res.violated}\n{res.counterexample[:1500]}")
-    n = 0
-    if cases_file.exists():
-        with open(cases_file, "rb") as fh:
-            n = sum(1 for _ in fh)
-    if n == 0:
-        raise MachineryError(f"stage {name}: TLC emitted no case")
-    _STAGEFILES.append((cases_file, n, mode, name))
+    res = run_tlc("BatteryPower", d, constants=consts, invariants=inv, env={"OUT_FILE": str(cases_file)}, timeout=12000, heap="3g", workers=workers)
+    return res, inv, cases_file
+
+
+def _mc_all(rep: Report, prop: str, stages: list, work: Path) -> None:
+    """Model-check all stages, a few TLC runs at a time (JVM start-up dominates the small stages);
+    results are entered into the report in stage order."""
+    import concurrent.futures as cf
+
+    par = 3 if len(stages) > 2 else 1
+    with cf.ThreadPoolExecutor(max_workers=par) as ex:
+        futs = [ex.submit(_mc_run, prop, name, consts, work, max(4, NCPU // par)) for name, consts in stages]
+        results = [f.result() for f in futs]
+    for (name, consts), (res, inv, cases_file) in zip(stages, results):
+        mode = consts["Mode"]
+        rep.add_mc(name, res, _jsonable(consts), inv, mode="exhaustive")
+        if not res.ok:
+            mine = [v for v in res.violated if v in CLAUSE_INV[prop] or v in DESIGN_INV or v in ("initial", "ASSUME", "AdmittedIsAcceptedInv", "NonAdmittedInv")]
+            if mine:
+                rep.fail(f"{prop}.MC.{'/'.join(res.violated)}", dict(stage=name, constants=_jsonable(consts)), res.counterexample[:3000])
+                continue
+            raise MachineryError(f"model checking stopped on an invariant of another property: {res.violated}\n{res.counterexample[:1500]}")
+        n = 0
+        if cases_file.exists():
+            with open(cases_file, "rb") as fh:
+                n = sum(1 for _ in fh)
+        if n == 0:
+            raise MachineryError(f"stage {name}: TLC emitted no case")
+        _STAGEFILES.append((cases_file, n, mode, name))
 
 
 def _run_val(rep: Report, prop: str, work: Path, consts: dict) -> None:
@@ -672,7 +697,7 @@ def _run_val(rep: Report, prop: str, work: Path, consts: dict) -> None:
 NEEDED = {
     "C01": ["nonzero_setpoint", "remainder", "supply", "beyond_incl", "multi_inverter", "multi_battery", "manager",
             "cover_partial_branch", "cover_multi_donor", "third_inverter_powered", "split_unplaced_not_last_set"],
-    "C02": ["nonzero_setpoint", "noheadroom", "allnoheadroom", "at_excl", "at_incl", "multi_inverter", "multi_battery",
+    "C02": ["zero_headroom_among_three_with_excl", "hetero_group_at_soc_limit", "nonzero_setpoint", "noheadroom", "allnoheadroom", "at_excl", "at_incl", "multi_inverter", "multi_battery",
             "cover_partial_branch", "cover_multi_donor", "third_inverter_powered", "not_advertised", "inside_enforced_zone", "beyond_incl_noadjust",
             "rejected_runs"],
     "C17": ["probes", "in_advertised", "contains", "rejected", "excl_differs", "manager", "multi_inverter", "multi_battery",
@@ -696,8 +721,7 @@ def run(prop: str, tier: str) -> int:
     ]
     stages = (sc["bounds"] + sc["admit"]) if prop == "C17" else (sc["dist"] + sc["reject"]) if prop == "C02" else sc["dist"]
     _STAGEFILES.clear()
-    for name, consts in stages:
-        _mc(rep, prop, name, consts, work)
+    _mc_all(rep, prop, stages, work)
     if not rep.failures:
         _run_val(rep, prop, work, stages[0][1])
         ex = rep.extra.get("exercised", {})
